@@ -855,6 +855,13 @@ fn gen_tx(t: &mut Tape, cfg: &GenCfg, p: &mut Program, k: usize) -> TxSpec {
                 let name = format!("nm{}x{}", tok, params.len());
                 params.push((name.clone(), Ty::Bytes));
                 terms.push((false, Term::AnyTok(tok, name, small_q_tok(t, &mut params))));
+                if t.chance(1, 2) {
+                    // a second asset of the same policy whose name is another argument: two classes that
+                    // are indistinguishable until the arguments are applied
+                    let name2 = format!("nm{}x{}", tok, params.len());
+                    params.push((name2.clone(), Ty::Bytes));
+                    terms.push((false, Term::AnyTok(tok, name2, small_q_tok(t, &mut params))));
+                }
             } else {
                 terms.push((false, Term::Tok(tok, small_q_tok(t, &mut params))));
             }
